@@ -84,6 +84,15 @@ CHECKS = {
               "Non-trivial = an authority was actually parsed (hostname reported); distinct by target string"),
         assumptions=["the request-line route is sampled, not enumerated; CONNECT authorities are compared case-insensitively (htp_parse_hostport lower-cases port-less hosts)"],
     ),
+    "C15": dict(
+        bins=["c15"], replay_bin="c15", campaigns=lambda tier, seed: [dict(name="c15", bin="c15", shards=16, timeout=2400)], level="exploration",
+        rule=("every string over {a = & % + 1 NUL} up to length 6 (thorough 7) x every single cut position x all 48 URLENCODED decoder configurations "
+              "(invalid handling x3, plus decoding, %u decoding, raw/encoded NUL termination), one more length x every cut x 6 rotating configurations, through "
+              "htp_urlenp_parse_partial/finalize with exact-size chunk copies; rapidcheck strings up to 96 B with up to 6 cuts (empty chunks included); end-to-end "
+              "POSTs (query string + urlencoded body, all personalities, random cuts) compared by parameter source. Oracle: reference split rule + reference decoder; "
+              "also the anomaly flags. Non-trivial = >=2 pieces and >=1 escape or '+'; distinct by input (and chunking for the random part)"),
+        assumptions=["query strings in the end-to-end part avoid whitespace, '#' and control bytes (request-line syntax)"],
+    ),
     "C17": dict(
         bins=["c17"], replay_bin="c17", campaigns=_c17, level="exploration",
         rule=("list: every op sequence over {push,pop,shift,replace} up to depth 11 (thorough 13) on capacities 1..3 (exhaustive BFS) "
